@@ -244,6 +244,23 @@ def run_conc(c, drv, fams, plans, n, procs, rounds, tag):
         c.report("concurrent-%s-no-return" % f.pid, "hang", "%s: a call did not return for %d s in goroutine %d of %d (GOMAXPROCS=%d); the same case returns when run single-threaded in a fresh process" % (
             f.name, h["seconds"], h["goroutine"], n, procs), dict(config=dict(goroutines=n, gomaxprocs=procs, rounds=rounds, family=f.name), case=case))
         return None, race_reports(d)[0], man, paths
+    if r.returncode == 2 and "fatal error: concurrent map" in (r.stderr or ""):
+        # the Go runtime's own detection of an unsynchronised map access ended the process.  Whose map?  The stack of the
+        # goroutine that died: runtime frames, then the code that touched the map - the library's if a library frame comes
+        # before any frame of the harness.
+        blk = r.stderr[r.stderr.index("fatal error: concurrent map"):]
+        first = blk.split("\n\n")[1] if "\n\n" in blk else blk
+        fns = [ln.split("(")[0].strip() for ln in first.splitlines() if ln and not ln.startswith(("\t", "goroutine ", "fatal error")) and "/" in ln or ln.startswith("main.")]
+        fns = [f_ for f_ in fns if not f_.startswith("runtime.")]
+        libpos = next((i for i, f_ in enumerate(fns) if "github.com/free5gc/nas" in f_), None)
+        harpos = next((i for i, f_ in enumerate(fns) if f_.startswith(("verifharness", "main."))), None)
+        if libpos is None or (harpos is not None and harpos < libpos):
+            raise Infra("driver died of a concurrent map access outside the library: conc runpar %s\n%s" % (tag, blk[:3000]))
+        fn = fns[libpos]
+        c.report("race/" + fn, "concurrent-map-access", "the Go runtime stopped the process: %s - a map reached from %s is accessed by several goroutines without synchronisation (%d goroutines, GOMAXPROCS=%d)" % (
+            blk.splitlines()[0], fn, n, procs), dict(config=dict(goroutines=n, gomaxprocs=procs, rounds=rounds), stack=first[:3000],
+            how="harness/cmd/conc runpar <manifest> <prefix> N rounds alternate (race build); the process ends with the runtime's fatal error"))
+        return None, race_reports(d)[0], man, paths
     if r.returncode != 0:
         raise Infra("driver failed rc=%d: conc runpar %s\n%s" % (r.returncode, tag, (r.stderr or "")[-3000:]))
     lib, other = race_reports(d)
@@ -343,7 +360,7 @@ def family_others(c, thorough, fams, pools, drv):
         plans = {}
         for f in fams:
             rng = random.Random("%d/%s/%s" % (c.seed, f.name, tag))
-            plans[f.name] = f.plan(pools[f.name]["pool"], rng, 1 if f.name in ("f06", "f07", "f09") else scale, wide=(n == 2))
+            plans[f.name] = f.plan(pools[f.name]["pool"], rng, 1 if f.name in ("f06", "f07", "f08", "f09") else scale, wide=(n == 2))
         if first:
             first = False
             drifted = drift_guard(c, drv, fams, pools, plans, c.sub("drift"))
